@@ -528,6 +528,11 @@ class SReal:
         return ctx().const(0)
 
 
+import numbers as _numbers
+
+_numbers.Real.register(SReal)  # `isinstance(x, numbers.Real)` checks of hyper-parameters accept symbolic reals
+
+
 def ssqrt(x):
     x = SReal.lift(x)
     return ctx().sqrt(x)
